@@ -215,13 +215,14 @@ func requestList(assets []app.VerifC15Asset, thorough bool) []string {
 }
 
 type bundledEnv struct {
-	c       *lib.Ctx
-	vod     string
-	scan    *lib.Livesim
-	scanAs  []app.VerifC15Asset
-	urls    []string
-	scanRes map[string]lib.Resp
-	n       int
+	c           *lib.Ctx
+	vod         string
+	scan        *lib.Livesim
+	scanAs      []app.VerifC15Asset
+	urls        []string
+	scanRes     map[string]lib.Resp
+	n           int
+	nNontrivial int
 }
 
 func respKey(r lib.Resp) string {
@@ -251,6 +252,9 @@ func (e *bundledEnv) compare(ls *lib.Livesim, in bundledInput, keyPrefix string,
 		}
 		got := ls.GetRaw(u)
 		e.n++
+		if want.Status == 200 {
+			e.nNontrivial++ // a distinct (instance, URL) pair whose scan response carries content
+		}
 		if respKey(want) == respKey(got) && string(want.Body) == string(got.Body) && want.Header.Get("Content-Type") == got.Header.Get("Content-Type") {
 			continue
 		}
@@ -306,6 +310,8 @@ func setupBundled(c *lib.Ctx, scratch string) (*bundledEnv, error) {
 	}
 	return e, nil
 }
+
+var nBDistinct int
 
 func runBundled(c *lib.Ctx, scratch string, rng *rand.Rand) (int, error) {
 	e, err := setupBundled(c, scratch)
@@ -452,6 +458,7 @@ func runBundled(c *lib.Ctx, scratch string, rng *rand.Rand) (int, error) {
 		d := d
 		e.runDamaged(scratch, rd, d, i, e.urls)
 	}
+	nBDistinct = e.nNontrivial
 	return e.n, nil
 }
 
